@@ -4,11 +4,12 @@ OUTSIDE = ('palette and run-length-coded variants, ASCII PNM (their decoders are
 ASSUMPTIONS = ['read_image through FILE* is the reference result', 'the FILE* model stands for libc']
 def queries(tier, seed):
     qs = []
-    def add(name, fmt, pix, mode, params, L, w, h, rect=(0, 0, 0, 0), cpix=None, t='quick', probe=(0, 0), refconv=0):
+    def add(name, fmt, pix, mode, params, L, w, h, rect=(0, 0, 0, 0), cpix=None, t='quick', probe=(0, 0), refconv=0, stream=None, unw=None):
         d = dict(FORMAT=fmt, MODE=mode, PIX=pix, REF_CONVERT=refconv)
         if cpix: d['CPIX'] = cpix
         p = [L] + list(params); p += [0] * (12 - len(p)) + [w, h] + list(rect) + list(probe)
-        qs.append(Q(name, 'C13/agree.cpp', 'h_agree', defs=d, params=p, rt=['file'], unwind=max(16, 4 * w + 4) if not refconv else 70, unwindset=([(r'St6vector|fill_n|uninitialized|read_palette', 310)] if refconv else []) + ([(r'scanline_reader|read_palette_image', 2100)] if mode == 7 else []), rt_unwind=L + 4, mem_unwind=400, cdefs=dict(VP_FILE_MAX=L + 8), tier=t, timeout=300))
+        if stream is not None: d['VP_STREAM_AT'] = 22; p += [0, 0, len(stream)] + list(stream)
+        qs.append(Q(name, 'C13/agree.cpp', 'h_agree', defs=d, params=p, rt=['file'], unwind=unw or (max(16, 4 * w + 4) if not refconv else 70), unwindset=([(r'St6vector|fill_n|uninitialized|read_palette', 310)] if refconv else []) + ([(r'scanline_reader|read_palette_image', 2100)] if mode == 7 else []), rt_unwind=L + 4, mem_unwind=400, cdefs=dict(VP_FILE_MAX=L + 8), tier=t, timeout=300))
     variants = []
     for (w, h) in ((3, 2), (4, 3), (1, 1)):
         rb = ((w * 24 + 31) // 32) * 4
@@ -48,6 +49,21 @@ def queries(tier, seed):
             for r in rects:
                 quick = (w, h) == (3, 2) and bpp == 8 and r in ((0, 1, 3, 1), (1, 1, 1, 1), (0, 0, 3, 1), (2, 0, 1, 2))
                 add('bmp%dpal_%dx%d/partial/%d_%d_%dx%d' % ((bpp, w, h) + r), 1, 'gil::rgb8_pixel_t', 1, par, L, w, h, r, t='quick' if quick else 'thorough', refconv=1)
+    # run-length-coded files with concrete packet structure and symbolic colour values: partial read == crop of the full read
+    S = 256
+    for desc, tdn in ((0, ''), (32, 'td')):
+        st = [0x82, S, S, S, 0x02, S, S, S, S, S, S, S, S, S]     # 3x2, 24 bit: a run of 3 pixels, then 3 raw pixels
+        w, h = 3, 2
+        for r in [(x0, y0, dx, dy) for x0 in range(w) for y0 in range(h) for dx in range(1, w - x0 + 1) for dy in range(1, h - y0 + 1) if (x0, y0, dx, dy) != (0, 0, w, h)]:
+            add('tga24rle%s_3x2/partial/%d_%d_%dx%d' % ((tdn,) + r), 3, 'gil::rgb8_pixel_t', 1, [0, 0, 10, 24, desc, w, h, -1, 18], 18 + len(st), w, h, r, stream=st, unw=24,
+                t='quick' if r in ((0, 1, 3, 1), (1, 1, 1, 1), (0, 0, 3, 1), (2, 0, 1, 2)) else 'thorough')
+        add('tga24rle%s_3x2/read_view' % tdn, 3, 'gil::rgb8_pixel_t', 3, [0, 0, 10, 24, desc, w, h, -1, 18], 18 + len(st), w, h, stream=st, unw=24, t='quick' if not tdn else 'thorough')
+    for comp, bpp in ((1, 8), (2, 4)):
+        st = [3, S, 0, 0, 2, S, 1, S, 0, 0, 0, 1]                  # 3x2: one run per row / two runs in the second row, end of line, end of bitmap
+        w, h = 3, 2; ds = 54 + 16
+        for r in [(x0, y0, dx, dy) for x0 in range(w) for y0 in range(h) for dx in range(1, w - x0 + 1) for dy in range(1, h - y0 + 1) if (x0, y0, dx, dy) != (0, 0, w, h)]:
+            add('bmp%drle_3x2/partial/%d_%d_%dx%d' % ((bpp,) + r), 1, 'gil::rgb8_pixel_t', 1, [1, 40, bpp, comp, w, h, 4, ds, -1, ds], ds + len(st), w, h, r, stream=st, refconv=1,
+                t='quick' if (bpp == 8 and r in ((0, 1, 3, 1), (1, 1, 1, 1), (0, 0, 3, 1), (2, 0, 1, 2))) else 'thorough')
     # scanline reader rows == rows of the (converting) full read, palette BMP 1/4/8 bit (rgba8 scanlines)
     for bpp in (1, 4, 8):
         for (w, h) in ((1, 2), (3, 2), (5, 2)):
